@@ -246,7 +246,8 @@ func (s *Service) Message(ctx context.Context, duty *synccommitteemessenger.Duty
 				Uint64("slot", uint64(duty.Slot())).
 				Uint64("validator_index", uint64(validatorIndices[i])).
 				Msg("Failed to sign sync committee message; received zero signature")
-			return nil, errors.New("failed to sign sync committee message; received zero signature")
+			// Carry on with the other validators.
+			continue
 		}
 		s.log.Trace().
 			Uint64("slot", uint64(duty.Slot())).
@@ -261,6 +262,11 @@ func (s *Service) Message(ctx context.Context, duty *synccommitteemessenger.Duty
 			Signature:       signature,
 		}
 		msgs = append(msgs, msg)
+	}
+
+	if len(msgs) == 0 {
+		monitorSyncCommitteeMessagesCompleted(started, duty.Slot(), countActive, "failed", startOfSlot)
+		return nil, errors.New("failed to sign sync committee messages; received no signatures")
 	}
 
 	if err := s.syncCommitteeMessagesSubmitter.SubmitSyncCommitteeMessages(ctx, msgs); err != nil {
